@@ -311,8 +311,13 @@ def tt_irenumber(
     newsubs = t.subs.astype(int)
     for i, r in enumerate(number_range):
         if isinstance(r, slice):
-            if r.step not in (None, 1):
-                # A strided slice selects from the (already resized) destination
+            if (
+                r.step not in (None, 1)
+                or (r.start is not None and r.start < 0)
+                or (r.stop is not None and r.stop < 0)
+            ):
+                # A strided slice, or one with bounds counted from the end, selects
+                # from the (already resized) destination
                 newsubs[:, i] = np.arange(shape[i])[r][newsubs[:, i]]
                 continue
             start = r.start or 0
